@@ -124,7 +124,11 @@ func transferCmd(out *cq.Out, seed uint64, tier string) {
 			}}
 			hist = append(hist, "the follower's first state-transfer stream will break")
 		}
-		if err := c.start(f, false); err != nil {
+		if err := c.start(f, false); portTaken(err) {
+			out.Count("transfer_skipped_infrastructure", 1)
+			c.stopAll()
+			continue
+		} else if err != nil {
 			out.Violate("C09:follower-cannot-rejoin", fmt.Sprintf("the follower could not be restarted after compaction: %v", err), desc)
 			c.stopAll()
 			continue
